@@ -270,18 +270,44 @@ impl Batch {
         }
         for i in 0..self.opts.members.max(1) {
             let exe = self.target_dir().join("debug").join(format!("m{i}"));
-            let run = Command::new(&exe).output().unwrap_or_else(|e| inconclusive(&format!("cannot run {}: {e}", exe.display())));
-            let text = String::from_utf8_lossy(&run.stdout);
-            for line in text.lines() {
-                let mut it = line.splitn(4, '\t');
-                if it.next() != Some("CASE") {
-                    continue;
+            // a case that aborts the process (stack overflow, abort) is recorded as "crash" and the member is restarted behind it
+            let mut start_at = 0usize;
+            for _attempt in 0..64 {
+                let run = Command::new(&exe).env("VERIF_START_AT", start_at.to_string()).output().unwrap_or_else(|e| inconclusive(&format!("cannot run {}: {e}", exe.display())));
+                let text = String::from_utf8_lossy(&run.stdout);
+                let mut last_started: Option<(String, usize)> = None;
+                for line in text.lines() {
+                    let mut it = line.splitn(4, '\t');
+                    match it.next() {
+                        Some("START") => {
+                            if let (Some(id), Some(idx)) = (it.next(), it.next().and_then(|x| x.parse::<usize>().ok())) {
+                                last_started = Some((id.to_string(), idx));
+                            }
+                        }
+                        Some("CASE") => {
+                            let (Some(id), Some(status)) = (it.next(), it.next()) else { continue };
+                            out.ran.insert(id.to_string(), (status.to_string(), it.next().unwrap_or("").to_string()));
+                            last_started = None;
+                        }
+                        _ => {}
+                    }
                 }
-                let (Some(id), Some(status)) = (it.next(), it.next()) else { continue };
-                out.ran.insert(id.to_string(), (status.to_string(), it.next().unwrap_or("").to_string()));
-            }
-            if !run.status.success() {
-                inconclusive(&format!("E2 batch {}: member m{i} exited with {:?}: {}", self.name, run.status.code(), String::from_utf8_lossy(&run.stderr).lines().take(5).collect::<Vec<_>>().join(" / ")));
+                if run.status.success() {
+                    break;
+                }
+                match last_started {
+                    Some((id, idx)) => {
+                        let why = String::from_utf8_lossy(&run.stderr).lines().filter(|l| !l.trim().is_empty()).take(3).collect::<Vec<_>>().join(" / ");
+                        out.ran.insert(id, ("crash".to_string(), format!("the process was aborted while this case ran ({:?}): {why}", run.status.code())));
+                        start_at = idx + 1;
+                    }
+                    None => inconclusive(&format!(
+                        "E2 batch {}: member m{i} exited with {:?} outside any case: {}",
+                        self.name,
+                        run.status.code(),
+                        String::from_utf8_lossy(&run.stderr).lines().take(5).collect::<Vec<_>>().join(" / ")
+                    )),
+                }
             }
         }
         for id in &live {
